@@ -492,6 +492,16 @@ class SizeFlow:
                     raise Unsupported('fold closure is not acc + f(item) in %s' % b.path)
                 per = inner.sub(Lin.atom(acc))
                 val = ('lin', sf.lin(cargs[1]).add(mk_sum(coll, per)).key())
+            elif base == 'sum' and len(cargs) == 1 and 'Iterator' in nm:
+                x = cargs[0]
+                while isinstance(x, tuple) and x and x[0] in ('ref', 'deref'):
+                    x = x[1]
+                if isinstance(x, tuple) and x and x[0] == 'call' and short(x[1]) == 'map' and len(x[2]) == 2:
+                    coll = coll_of(x[2][0])
+                    per = sf.apply_fn(x[2][1], [('item', coll)], tyargs)
+                    val = ('lin', mk_sum(coll, per).key())
+                else:
+                    raise Unsupported('sum() over an iterator that is not map(closure) in %s' % b.path)
             elif trait == 'utils::Encode' and base == 'encoded_size':
                 val = ('lin', sf.esize(cargs[0], targs[0] if targs else None, t).key())
             elif nm.endswith('EncodeLtd::encoded_size') or re.search(r'EncodeLtd>::encoded_size$', nm):
